@@ -174,7 +174,7 @@ def _r2_selection(run):
     ok = len(plus) == 1 and len(minus) == 1 and len(r2.returns) == 2
     if ok:
         pc = [c for c in plus[0][0] if c[0] != "loop"]
-        ok = len(pc) == 1 and pc[0][1] is True and pc[0][0] in (("op", "cmp:Eq", (fmt, ("const", "fits"))), ("op", "cmp:Eq", (("const", "fits"), fmt)))
+        ok = len(pc) == 1 and pc[0][1] is True and pc[0][0] == sym.cmp("Eq", fmt, ("const", "fits"))
     if ok:
         run.holds("C02.R2", g, None, "vertical parity sign is +1 exactly for 'fits'")
     else:
@@ -229,7 +229,7 @@ def _r3_r5_callback(run):
     recv = e.term[1][1]
     want_args = (("attr", ("sym", "self"), "_buf"), full, full, ("star", ("item", el, 0)))
     conds = [c for c in e.pc if c[0] != "loop"]
-    not_none = ("op", "cmp:IsNot", (("item", el, 1), sym.NONE))
+    not_none = sym.cmp("IsNot", ("item", el, 1), sym.NONE)
     if recv != ("item", el, 1):
         run.violated("C02.R3", f, e.node, "the update is applied by %s, not by the child image paired with the slice" % show(recv)[:80], kind="update-receiver")
     elif tuple(a) != want_args:
@@ -280,7 +280,7 @@ def _r3_r5_callback(run):
     rets = [(pc, n) for pc, t, n in r.returns]
     for pc, n in rets:
         conds = [c for c in pc if c[0] != "loop"]
-        want = ("op", "and", tuple(("op", "cmp:Is", (im, sym.NONE)) for im in imgs))
+        want = ("op", "and", tuple(sym.cmp("Is", im, sym.NONE) for im in imgs))
         if not (len(conds) == 1 and conds[0] == (want, True)):
             run.violated("C02.R5", f, n, "the callback returns without writing the parent under %s (only allowed when all four children are missing)"
                          % [("" if p else "not ") + show(c)[:100] for c, p in conds], kind="early-return")
